@@ -2648,3 +2648,76 @@ MUTANTS = list(MUTANTS) + [
      ("common.get_command_log(paths=[path_in])",
       "common.get_command_log(path=[path_in])"), "R8.20"),
 ]
+
+# round-5 material: refactorings C10/refactor2, C10/refactor4 (+ `next`,
+# itertools.chain in cli/common.py) and seed C08_15
+def re_sub_block(src, first_line, last_line, replacement):
+    """replace the block from `first_line` to `last_line` (inclusive)"""
+    a = src.index(first_line)
+    b = src.index(last_line, a) + len(last_line)
+    return src[:a] + replacement + src[b:]
+
+
+TWINS = list(TWINS) + [
+    ("tdms2rtdc: exported features chosen by a conditional expression", TDMS,
+     lambda s: s.replace(
+         "                if compute_features:\n"
+         "                    features = ds.features\n"
+         "                else:\n",
+         "                features = (ds.features if compute_features\n"
+         "                            else ds.features_innate)\n"
+         "                if False:\n").replace(
+         "                    features = ds.features_innate\n",
+         "                    pass\n")),
+    ("tdms2rtdc: feature selection with inverted test", TDMS,
+     lambda s: re_sub_block(
+         s, "                if compute_features:\n",
+         "                    features = ds.features_innate\n",
+         "                if not compute_features:\n"
+         "                    features = ds.features_innate\n"
+         "                else:\n"
+         "                    features = ds.features\n")),
+    ("compress: file handles entered through contextlib.ExitStack", COMPRESS,
+     [("import argparse\n", "import argparse\nimport contextlib\n"),
+      ("        with h5py.File(path_in) as h5, h5py.File(path_temp, \"w\") "
+       "as hc:\n",
+       "        with contextlib.ExitStack() as stack:\n"
+       "            h5 = stack.enter_context(h5py.File(path_in))\n"
+       "            hc = stack.enter_context(h5py.File(path_temp, \"w\"))\n")]),
+    ("setup_task_paths: suffix validation with next() over a generator",
+     COMMON,
+     ("    for pi in paths_in:\n"
+      "        if pi.suffix not in allowed_input_suffixes:\n"
+      "            raise ValueError(f\"Unsupported file type: "
+      "'{pi.suffix}'\")\n",
+      "    bad = next((pi for pi in paths_in\n"
+      "                if pi.suffix not in allowed_input_suffixes), None)\n"
+      "    if bad is not None:\n"
+      "        raise ValueError(f\"Unsupported file type: "
+      "'{bad.suffix}'\")\n")),
+]
+
+MUTANTS = list(MUTANTS) + [
+    ("missing mean complemented with the nan-unaware np.mean (seeded)",
+     COPIER,
+     ('                                        (np.nanmean, "mean"),',
+      '                                        (np.mean, "mean"),'), "R8.4"),
+    ("conditional expression exports all features by default", TDMS,
+     lambda s: s.replace(
+         "                if compute_features:\n"
+         "                    features = ds.features\n"
+         "                else:\n",
+         "                features = (ds.features_innate if compute_features\n"
+         "                            else ds.features)\n"
+         "                if False:\n").replace(
+         "                    features = ds.features_innate\n",
+         "                    pass\n"), "R8.8"),
+    ("ExitStack opens the input for writing", COMPRESS,
+     [("import argparse\n", "import argparse\nimport contextlib\n"),
+      ("        with h5py.File(path_in) as h5, h5py.File(path_temp, \"w\") "
+       "as hc:\n",
+       "        with contextlib.ExitStack() as stack:\n"
+       "            h5 = stack.enter_context(h5py.File(path_in, \"a\"))\n"
+       "            hc = stack.enter_context(h5py.File(path_temp, \"w\"))\n")],
+     "R8.3"),
+]
